@@ -361,6 +361,66 @@ func ruleLoadCallbackChecked(c *Ctx) {
 	}
 }
 
+// ruleEveryRecordDelivered: a full load hands every record it read to the
+// callback: in the loops over a page of LoadStores and loadRegions no iteration
+// goes on to the next record without calling it (errors leave the function).
+func ruleEveryRecordDelivered(c *Ctx) {
+	P := c.P
+	rule := c.Prop + "/paging"
+	for _, fn := range []*ssa.Function{P.Method("server/core", "Storage", "LoadStores"), P.Func("server/core", "loadRegions")} {
+		c.saw(fnName(fn))
+		var cb ssa.Value
+		for _, p := range fn.Params {
+			if _, isF := p.Type().Underlying().(*types.Signature); isF {
+				cb = p
+			}
+		}
+		if cb == nil {
+			c.Undec(rule, "callback of "+fnName(fn), "a function parameter", "", "")
+			continue
+		}
+		isCB := func(x ssa.Instruction) bool {
+			cl, ok := x.(*ssa.Call)
+			return ok && cl.Call.Value == cb
+		}
+		found, every := false, true
+		for _, l := range loopsOf(fn) {
+			has := false
+			for b := range l.blocks {
+				for _, ins := range b.Instrs {
+					if isCB(ins) {
+						has = true
+					}
+				}
+			}
+			if !has {
+				continue
+			}
+			// the innermost loop around the call is the loop over the page; the outer one pages (and retries)
+			inner := true
+			for _, l2 := range loopsOf(fn) {
+				if len(l2.blocks) < len(l.blocks) && l.blocks[l2.header] {
+					for b := range l2.blocks {
+						for _, ins := range b.Instrs {
+							if isCB(ins) {
+								inner = false
+							}
+						}
+					}
+				}
+			}
+			if !inner {
+				continue
+			}
+			found = true
+			if !everyIterationCalls(l, isCB) {
+				every = false
+			}
+		}
+		c.Check(found && every, rule, "records of a page in "+fnName(fn), "every record read is handed to the callback (no record is skipped)", P.pos(fn.Pos()), "an iteration can go on to the next record without calling the callback")
+	}
+}
+
 // ruleStaleReportsItself: when the checked insertion refuses a loaded record as
 // stale, the record it reports for deletion is that record — the argument — and
 // not the cached region it lost against (nil when it merely overlaps newer
@@ -573,7 +633,7 @@ func ruleRegionBackendSelection(c *Ctx) {
 func init() {
 	register("C17", "Persisted stores and regions are loaded back completely and pruned consistently", func(c *Ctx) {
 		c.Group("C17/key-format", "all store/region key builders (storage, bootstrap, weights) render ids with the same zero-padded width and segments", func() { ruleKeyFormats(c) })
-		c.Group("C17/load-prunes", "loading deletes every region the callback reports from the backend being read, pages by last id + 1 and stops only on a short page; items live under their own id's key", func() { ruleLoadAndPrune(c); ruleLoadedOnceAfterSuccess(c); ruleLoadCallbackChecked(c); ruleStaleReportsItself(c) })
+		c.Group("C17/load-prunes", "loading deletes every region the callback reports from the backend being read, pages by last id + 1 and stops only on a short page; items live under their own id's key", func() { ruleLoadAndPrune(c); ruleLoadedOnceAfterSuccess(c); ruleLoadCallbackChecked(c); ruleStaleReportsItself(c); ruleEveryRecordDelivered(c) })
 		c.Group("C17/weights-written", "SaveStoreWeight writes both weight keys unconditionally", func() { ruleWeightsAlwaysWritten(c) })
 		c.Group("C17/storage-errors", "no storage function reports success after a kv call whose error was not found nil", func() { ruleStorageErrorDiscipline(c) })
 		c.Group("C17/backend-selection", "load, save and delete of region records select the backend by the same useRegionStorage test", func() { ruleRegionBackendSelection(c) })
